@@ -8,11 +8,12 @@ from . import source
 from .contracts import REGISTRY
 
 
-def _work(arg):
-    key, ci, z3_ms, use_cvc5, mutant = arg
+def _gen(arg):
+    """Phase 1 (per function-case): generate obligations from the current source; ship the open ones as SMT-LIB text."""
+    key, ci, mutant = arg
     import contracts  # noqa: F401  (fills the registry in the worker)
     from .verify import verify_case
-    from .solve import discharge, smt2_head
+    from .solve import to_smt2
     from . import verify as V
     if mutant is not None:
         from . import mutants
@@ -22,13 +23,14 @@ def _work(arg):
     r = verify_case(c, ci)
     obs = []
     for ob in r.obligations:
-        if ob.kind == "assert" and ob.goal is not None and str(ob.goal) == "False":
-            pass
+        d = dict(name=ob.name, status=ob.status, backend=ob.backend, time=0.0, kind=ob.kind, prop=ob.prop, line=ob.line,
+                 detail=ob.detail, smt2="")
         if ob.status is None:
-            discharge(ob, z3_ms=z3_ms, use_cvc5=use_cvc5)
-        obs.append(dict(name=ob.name, status=ob.status, backend=ob.backend, time=round(ob.time, 4), kind=ob.kind,
-                        prop=ob.prop, line=ob.line, detail=ob.detail[:3000] if ob.status != "proved" else "",
-                        smt2=smt2_head(ob) if ob.status != "proved" else ""))
+            try:
+                d["smt2"] = to_smt2(ob)
+            except Exception as e:
+                d["status"], d["backend"], d["detail"] = "unknown", "z3", "cannot serialise: %s" % e
+        obs.append(d)
     covers = []
     import z3
     for name, pc in r.covers:
@@ -39,7 +41,37 @@ def _work(arg):
         covers.append((name, str(s.check())))
     return dict(key=key, case=r.case, status=r.status, detail=r.detail, obligations=obs, notes=r.notes,
                 assumptions=r.assumptions, used=r.used_contracts, paths=r.paths, dead=r.dead, covers=covers,
-                src=r.src, gen_time=round(r.gen_time, 3), wall=round(time.time() - t0, 3), tier=c.tier)
+                src=r.src, gen_time=round(r.gen_time, 3), wall=round(time.time() - t0, 3), tier=c.tier, mutant=mutant)
+
+
+def _solve(arg):
+    txt, z3_ms, use_cvc5 = arg
+    from .solve import discharge_smt2
+    try:
+        return discharge_smt2(txt, z3_ms=z3_ms, use_cvc5=use_cvc5)
+    except Exception as e:
+        return dict(status="unknown", backend="z3", time=0.0, detail="solver worker failed: %s" % e)
+
+
+def run_jobs(jobs, z3_ms, use_cvc5, procs, stop_at_first_failure=False):
+    procs = procs or 16
+    ctx = mp.get_context("fork")
+    with ctx.Pool(min(procs, max(1, len(jobs)))) as pool:
+        results = pool.map(_gen, jobs, chunksize=1)
+    todo = [(ri, oi) for ri, r in enumerate(results) for oi, o in enumerate(r["obligations"]) if o["status"] is None]
+    if todo:
+        with ctx.Pool(min(procs, len(todo))) as pool:
+            outs = pool.map(_solve, [(results[ri]["obligations"][oi]["smt2"], z3_ms, use_cvc5) for ri, oi in todo], chunksize=2)
+        for (ri, oi), out in zip(todo, outs):
+            o = results[ri]["obligations"][oi]
+            o.update(status=out["status"], backend=out["backend"], time=round(out["time"], 4), detail=out["detail"][:3000])
+    for r in results:
+        for o in r["obligations"]:
+            if o["status"] == "proved":
+                o["smt2"] = ""
+            else:
+                o["smt2"] = "\n".join(o["smt2"].splitlines()[-12:])
+    return results
 
 
 def run(keys, z3_ms=10000, use_cvc5=True, procs=None, mutant=None):
@@ -49,12 +81,8 @@ def run(keys, z3_ms=10000, use_cvc5=True, procs=None, mutant=None):
         if c.trusted or c.inline or not c.verify:
             continue
         for ci in range(len(c.cases)):
-            jobs.append((key, ci, z3_ms, use_cvc5, mutant))
-    procs = procs or min(16, max(1, len(jobs)))
-    if procs == 1 or len(jobs) <= 1:
-        return [_work(j) for j in jobs]
-    with mp.get_context("fork").Pool(procs) as pool:
-        return pool.map(_work, jobs, chunksize=1)
+            jobs.append((key, ci, mutant))
+    return run_jobs(jobs, z3_ms, use_cvc5, procs)
 
 
 def mutant_sweep(keys, z3_ms=5000, procs=None, max_per_fn=None):
@@ -75,13 +103,11 @@ def mutant_sweep(keys, z3_ms=5000, procs=None, max_per_fn=None):
         for m in range(n):
             desc[(key, m)] = mutants.describe(node, m)
             for ci in range(len(c.cases)):
-                jobs.append((key, ci, z3_ms, False, m))
-    procs = procs or 16
-    with mp.get_context("fork").Pool(procs) as pool:
-        res = pool.map(_work, jobs, chunksize=1)
+                jobs.append((key, ci, m))
+    res = run_jobs(jobs, z3_ms, False, procs)
     killed = {}
     for j, r in zip(jobs, res):
-        k = (j[0], j[4])
+        k = (j[0], j[2])
         dead = r["status"] != "ok" or any(o["status"] != "proved" for o in r["obligations"])
         killed[k] = killed.get(k, False) or dead
     survivors = sorted((k[0][1], desc[k]) for k, v in killed.items() if not v)
